@@ -137,7 +137,7 @@ func (e *Engine) insertCandidate() {
 
 	e.selected = grp.selected()
 
-	if len(e.selected.Value) < len(e.prefix) {
+	if utf8.RuneCountInString(e.selected.Value) < utf8.RuneCountInString(e.prefix) {
 		return
 	}
 
@@ -173,7 +173,7 @@ func (e *Engine) prepareSuffix() (comp string) {
 
 	// When the completion has a size of 1, don't remove anything:
 	// stacked flags, for example, will never be inserted otherwise.
-	if len(comp) > 0 && len(comp[prefix:]) <= 1 {
+	if len(comp) > 0 && len(comp)-prefix <= 1 {
 		return
 	}
 
